@@ -336,14 +336,30 @@ Ltac acct :=
   proj_cbn; rewrite ?submitted_app, ?ended_app, ?app_length;
   try match goal with H : sh_jobs ?s = _ |- _ => rewrite H end;
   try match goal with |- context [if ?b then _ else _] => destruct b end;
+  try match goal with
+      | H : nth_error ?ws ?w = Some ?y |- context [nbusy (updw ?w ?x ?ws)] =>
+          let E := fresh in pose proof (nbusy_updw ws w x y H) as E; revert E
+      end;
+  cbn; intros; subst; lia.
+
+Ltac rw_eqs :=
   repeat match goal with
-         | H : nth_error ?ws ?w = Some ?y |- context [nbusy (updw ?w ?x ?ws)] =>
-             let E := fresh in pose proof (nbusy_updw ws w x y H) as E; revert E
-         end;
-  cbn; intros; lia.
+         | H : ?l = _ |- context [?l] =>
+             lazymatch l with
+             | sh_rpc _ => rewrite H
+             | sh_apc _ => rewrite H
+             | sh_wpc _ => rewrite H
+             | sh_start _ => rewrite H
+             | sh_stop _ => rewrite H
+             | sh_jobs _ => rewrite H
+             | sh_sock_closed _ => rewrite H
+             | sh_shutdown _ => rewrite H
+             | sh_handler _ => rewrite H
+             end
+         end.
 
 Ltac inv_fin :=
-  cbn [rstage astage] in *; cbn; intros; use_hyps; subst;
+  proj_cbn; rw_eqs; cbn [rstage astage] in *; cbn; intros; use_hyps; subst;
   try discriminate; try lia; try inv_contra;
   repeat split; try assumption; try reflexivity; try congruence.
 
@@ -352,7 +368,264 @@ Proof.
   intros H [i1 i2 i3 i4 i5 i6 i7 i8 i9]. revert i1 i2 i3 i4 i5 i6 i7 i8 i9.
   step_inv H th a; intros i1 i2 i3 i4 i5 i6 i7 i8 i9;
     try apply Inv_settle;
-    (constructor; [inv_fin|inv_fin|inv_fin|inv_fin|inv_fin|inv_fin|inv_fin|inv_fin|try (revert i9; acct)]).
-  all: idtac "LEFT".
-  Show.
+    (constructor;
+     [inv_fin|inv_fin|inv_fin|inv_fin|inv_fin|inv_fin|inv_fin|inv_fin|revert i9; acct]).
+Qed.
+
+Lemma Inv_run : forall ls s s', Inv s -> run s ls = Some s' -> Inv s'.
+Proof.
+  induction ls as [|[th a] ls IH]; intros s s' Hi Hr; cbn [run] in Hr.
+  - inversion Hr; subst; exact Hi.
+  - destruct (step s th a) as [s1|] eqn:Hs; [|discriminate].
+    eapply IH; [|exact Hr]. eapply Inv_step; eassumption.
+Qed.
+
+Lemma Inv_reach k h n s : sreach k h n s -> Inv s.
+Proof. intros [ls Hr]. eapply Inv_run; [apply Inv_init|exact Hr]. Qed.
+
+Lemma Inv_closed s : Inv s -> inv_closed s = true.
+Proof.
+  intros [i1 i2 i3 i4 i5 i6 i7 i8 i9]. unfold inv_closed.
+  destruct (sh_sock_closed s) eqn:Hc; [|reflexivity]. cbn [negb orb].
+  destruct (i8 eq_refl) as (Ha & Hb & Hsd & Hj & Hx).
+  assert (Hd : pool_drained s = true) by (apply pool_drained_iff; auto).
+  unfold writer_dead. rewrite Hb, Hd. cbn [andb].
+  rewrite i9, Hj, (all_exited_nbusy _ Hx). cbn. apply Nat.eqb_refl.
+Qed.
+
+Theorem inv_closed_reachable : forall k h n s, sreach k h n s -> inv_closed s = true.
+Proof. intros k h n s Hr. apply Inv_closed. eapply Inv_reach; exact Hr. Qed.
+
+(* ================================================================== *)
+(* 4. exit_ok                                                           *)
+(* ================================================================== *)
+
+Lemma exit_ok_from_app h es : forall b,
+  exit_ok_from b (h ++ es) = exit_ok_from b h && exit_ok_from (b || has_event is_handio h) es.
+Proof.
+  induction h as [|e r IH]; intros b.
+  - cbn. rewrite orb_false_r. reflexivity.
+  - rewrite <- app_comm_cons. destruct e; cbn [exit_ok_from has_event existsb is_handio orb]; rewrite ?IH;
+      rewrite ?orb_true_r, ?andb_assoc; try reflexivity.
+Qed.
+
+Lemma exit_append h es :
+  exit_ok h = true -> (forall b, exit_ok_from b es = true) -> exit_ok (h ++ es) = true.
+Proof. unfold exit_ok. intros Hh He. rewrite exit_ok_from_app, Hh, He. reflexivity. Qed.
+
+Lemma noexit_ok es : has_event is_exit es = false -> forall b, exit_ok_from b es = true.
+Proof.
+  induction es as [|e r IH]; intros H b; [reflexivity|].
+  cbn [has_event existsb] in H. apply orb_false_iff in H. destruct H as [He Hr].
+  destruct e; cbn [exit_ok_from]; try discriminate He; apply IH; exact Hr.
+Qed.
+
+Lemma exit_settle s todo : exit_ok (sh_hist s) = true -> exit_ok (sh_hist (settle s todo)) = true.
+Proof.
+  intros H. destruct (settle_sett s todo) as [_ _ _ _ _ _ _ _ _ _ _ (js & es & _ & Hh & He & _)].
+  rewrite Hh. apply exit_append; [exact H|]. apply noexit_ok, sev_exit, He.
+Qed.
+
+Lemma exit_ok_step s th a s' :
+  step s th a = Some s' -> exit_ok (sh_hist s) = true -> exit_ok (sh_hist s') = true.
+Proof.
+  intros H Hi.
+  step_inv H th a; try apply exit_settle; proj_cbn; rewrite <- ?app_assoc; try exact Hi;
+    (apply exit_append; [exact Hi | intros b; reflexivity]).
+Qed.
+
+Theorem exit_ok_reachable : forall k h n s, sreach k h n s -> exit_ok (sh_hist s) = true.
+Proof.
+  intros k h n s [ls Hr].
+  assert (G : forall ls s0, exit_ok (sh_hist s0) = true -> run s0 ls = Some s -> exit_ok (sh_hist s) = true).
+  { clear. induction ls as [|[th a] ls IH]; intros s0 Hi Hr; cbn [run] in Hr.
+    - inversion Hr; subst; exact Hi.
+    - destruct (step s0 th a) as [s1|] eqn:Hs; [|discriminate].
+      eapply IH; [|exact Hr]. eapply exit_ok_step; eassumption. }
+  eapply G; [|exact Hr]. reflexivity.
+Qed.
+
+(* ================================================================== *)
+(* 5. Without read / write faults: nothing reported, no exit            *)
+(* ================================================================== *)
+
+Definition rio (p : rpc) : bool := match p with RIoHand => true | _ => false end.
+Definition wio (w : wpc) : bool := match w with WIoHand => true | _ => false end.
+
+Record NF (s : shell) : Prop := {
+  n_handio : has_event is_handio (sh_hist s) = false;
+  n_exit : has_event is_exit (sh_hist s) = false;
+  n_exited : sh_exited s = false;
+  n_rio : rio (sh_rpc s) = false;
+  n_wio : wio (sh_wpc s) = false
+}.
+
+Lemma NF_init k h n : NF (shell_init k h n).
+Proof. constructor; reflexivity. Qed.
+
+Lemma NF_settle s todo : NF s -> NF (settle s todo).
+Proof.
+  intros [n1 n2 n3 n4 n5]. destruct (settle_spec todo s) as ([] & Hrpc & _).
+  destruct st_hist0 as (js & es & _ & Hh & He & _).
+  constructor.
+  - rewrite Hh, has_event_app, n1, (sev_handio _ He). reflexivity.
+  - rewrite Hh, has_event_app, n2, (sev_exit _ He). reflexivity.
+  - congruence.
+  - destruct (sh_rpc (settle s todo)); try reflexivity; discriminate Hrpc.
+  - congruence.
+Qed.
+
+Lemma NF_step s th a s' :
+  step s th a = Some s' -> is_fault (th, a) = false ->
+  (sh_sock_closed s = true -> sh_stop s = true) -> NF s -> NF s'.
+Proof.
+  intros H Hf Hcs [n1 n2 n3 n4 n5]. revert Hf Hcs n1 n2 n3 n4 n5.
+  step_inv H th a; cbn [is_fault snd]; intros Hf Hcs n1 n2 n3 n4 n5; try discriminate Hf;
+    cbn [rio wio] in *; try discriminate; try (specialize (Hcs eq_refl); discriminate Hcs);
+    try apply NF_settle;
+    (constructor; proj_cbn; rw_eqs; rewrite ?has_event_app, ?n1, ?n2; try assumption; reflexivity).
+Qed.
+
+(* ================================================================== *)
+(* 6. The writer: conservation of the outbound queue                    *)
+(* ================================================================== *)
+
+Definition is_pill (l : oline) : bool := match l with OStopPill => true | _ => false end.
+
+(* what the writer holds: the line being sent, or the pill it took *)
+Definition held (w : wpc) : list oline :=
+  match w with WHand l => [l] | WDead => [OStopPill] | _ => [] end.
+
+Record WI (s : shell) : Prop := {
+  w_cons : map snd (puts_of (sh_hist s)) = written_of (sh_hist s) ++ held (sh_wpc s) ++ sh_outq s;
+  w_nopill : existsb is_pill (written_of (sh_hist s)) = false;
+  w_hand : forall l, sh_wpc s = WHand l -> is_pill l = false
+}.
+
+Lemma WI_settle s todo : WI s -> WI (settle s todo).
+Proof.
+  intros [w1 w2 w3]. destruct (settle_sett s todo) as [].
+  destruct st_hist0 as (js & es & _ & Hh & He & _).
+  constructor.
+  - rewrite Hh, puts_of_app, written_of_app, (sev_puts _ He), (sev_written _ He), !app_nil_r,
+      st_wpc0, st_outq0. exact w1.
+  - rewrite Hh, written_of_app, (sev_written _ He), app_nil_r. exact w2.
+  - rewrite st_wpc0. exact w3.
+Qed.
+
+Lemma before_pill_cut th : forall w ps r,
+  map snd ps = w ++ OStopPill :: r -> existsb is_pill w = false -> before_pill th ps = w.
+Proof.
+  induction w as [|x w IH]; intros ps r Hm Hn.
+  - destruct ps as [|[t l] ps]; [discriminate Hm|]. cbn in Hm. inversion Hm; subst. reflexivity.
+  - destruct ps as [|[t l] ps]; [discriminate Hm|]. cbn in Hm. inversion Hm; subst.
+    cbn [existsb] in Hn. apply orb_false_iff in Hn. destruct Hn as [Hx Hw].
+    cbn [before_pill]. destruct x; try discriminate Hx; f_equal; eapply IH; eauto.
+Qed.
+
+Ltac wi_fin :=
+  proj_cbn; rw_eqs; rewrite ?puts_of_app, ?written_of_app, ?map_app, ?existsb_app;
+  cbn [puts_of written_of map snd held app existsb is_pill orb] in *;
+  rewrite ?app_nil_r, ?orb_false_r;
+  try assumption;
+  try (intros ? E; inversion E; subst; reflexivity);
+  try match goal with
+      | Hst : 0 = 0 -> sh_wpc _ = WNotStarted, w1 : map snd _ = _ |- _ =>
+          rewrite (Hst eq_refl) in w1; exact w1
+      | w2 : existsb is_pill _ = false, w3 : forall l, WHand _ = WHand l -> _ |- _ =>
+          rewrite w2; apply w3; reflexivity
+      end;
+  try match goal with
+      | w1 : map snd _ = _ |- map snd _ ++ _ = _ => rewrite w1, <- ?app_assoc; reflexivity
+      | w1 : map snd _ = _ |- map snd _ = _ => rewrite w1, <- ?app_assoc; reflexivity
+      end.
+
+Lemma WI_step s th a s' :
+  step s th a = Some s' -> is_fault (th, a) = false ->
+  (sh_start s = 0 -> sh_wpc s = WNotStarted) -> wio (sh_wpc s) = false -> WI s -> WI s'.
+Proof.
+  intros H Hf Hst Hw [w1 w2 w3]. revert Hf Hst Hw w1 w2 w3.
+  step_inv H th a; cbn [is_fault snd]; intros Hf Hst Hw w1 w2 w3; try discriminate Hf;
+    cbn [wio] in *; try discriminate;
+    try apply WI_settle;
+    (constructor; [wi_fin|wi_fin|wi_fin]).
+Qed.
+
+Lemma WI_init k h n : WI (shell_init k h n).
+Proof. constructor; cbn; try reflexivity. intros l H; discriminate H. Qed.
+
+Definition Good (s : shell) : Prop := Inv s /\ NF s /\ WI s.
+
+Lemma Good_run : forall ls s s',
+  Good s -> existsb is_fault ls = false -> run s ls = Some s' -> Good s'.
+Proof.
+  induction ls as [|[th a] ls IH]; intros s s' Hg Hf Hr; cbn [run] in Hr.
+  - inversion Hr; subst; exact Hg.
+  - destruct (step s th a) as [s1|] eqn:Hs; [|discriminate].
+    cbn [existsb] in Hf. apply orb_false_iff in Hf. destruct Hf as [Hf1 Hf2].
+    destruct Hg as (Hi & Hn & Hw).
+    eapply IH; [|exact Hf2|exact Hr].
+    split; [eapply Inv_step; eassumption|]. split.
+    + eapply NF_step; try eassumption. intros Hc. apply (i_closed _ Hi Hc).
+    + eapply WI_step; try eassumption; [apply (i_start _ Hi)|apply (n_wio _ Hn)].
+Qed.
+
+Lemma Good_init k h n : Good (shell_init k h n).
+Proof. split; [apply Inv_init|]. split; [apply NF_init|apply WI_init]. Qed.
+
+Theorem no_fault_no_report : forall k h n ls s,
+  run (shell_init k h n) ls = Some s -> existsb is_fault ls = false ->
+  has_event is_handio (sh_hist s) = false /\ has_event is_exit (sh_hist s) = false /\ sh_exited s = false.
+Proof.
+  intros k h n ls s Hr Hf.
+  destruct (Good_run ls _ _ (Good_init k h n) Hf Hr) as (_ & [n1 n2 n3 _ _] & _). auto.
+Qed.
+
+Theorem writer_drains_before_pill : forall k h n ls s,
+  run (shell_init k h n) ls = Some s -> existsb is_fault ls = false -> sh_wpc s = WDead ->
+  written_of (sh_hist s) = before_pill ThReader (puts_of (sh_hist s)).
+Proof.
+  intros k h n ls s Hr Hf Hd.
+  destruct (Good_run ls _ _ (Good_init k h n) Hf Hr) as (_ & _ & [w1 w2 _]).
+  rewrite Hd in w1. cbn [held app] in w1. symmetry. eapply before_pill_cut; eassumption.
+Qed.
+
+(* ================================================================== *)
+(* 7. One-step facts                                                    *)
+(* ================================================================== *)
+
+Theorem close_honoured : forall s,
+  sh_close_expected s = true ->
+  let s' := settle s [LcClose true true] in
+  sh_stop s' = true /\ sh_rpc s' = RCl1 /\ sh_hist s' = sh_hist s ++ [EStopFlag ThReader].
+Proof.
+  intros s Hc. cbn [settle negb]. rewrite Hc. cbn. auto.
+Qed.
+
+Theorem close_ignored : forall s id0 rok,
+  sh_close_expected s = false -> sh_init_expected s = false ->
+  settle s [LcClose id0 rok] =
+    (if sh_stop s then slog (set_reader s (sh_init_expected s) (sh_close_expected s) [] RDead) [EReaderEnd]
+     else set_reader s (sh_init_expected s) (sh_close_expected s) [] RRecv).
+Proof.
+  intros s id0 rok Hc Hi. cbn [settle]. rewrite Hc, Hi. reflexivity.
+Qed.
+
+Theorem close_bad_id : forall s rok,
+  sh_close_expected s = true ->
+  let s' := settle s [LcClose false rok] in
+  sh_stop s' = sh_stop s /\ sh_jobs s' = sh_jobs s /\ sh_outq s' = sh_outq s /\
+  match sh_handler s with
+  | HNone => exists tl, sh_hist s' = sh_hist s ++ EHand ThReader :: tl /\ (tl = [] \/ tl = [EReaderEnd])
+  | HRet _ _ => sh_hist s' = sh_hist s /\ sh_rpc s' = RHandY
+  end.
+Proof.
+  intros s rok Hc. cbn [settle negb]. rewrite Hc. unfold reader_hand.
+  destruct (sh_handler s) eqn:Hh.
+  - destruct (is_data s); cbn.
+    + repeat split; auto. exists []. auto.
+    + destruct (sh_stop s) eqn:Hs; cbn; rewrite ?Hs; repeat split; auto.
+      * exists [EReaderEnd]. rewrite <- app_assoc. auto.
+      * exists []. auto.
+  - cbn. auto.
 Qed.
